@@ -578,7 +578,9 @@ func (e *Engine) callByContract(st *State, fn *ssa.Function, ct *Contract, args 
 		rt := sig.Results().At(i).Type()
 		if types.Identical(rt, types.Universe.Lookup("error").Type()) {
 			s2 := st.clone()
-			finish(s2, i+1, append(append([]Value{}, acc...), e.sentinelErr(s2, "opaque error from "+ct.Short)))
+			e.nextCell++
+			opaque := VIface{Typ: sentinelType, V: VAbs{Kind: "sentinel", ID: e.nextCell, Data: "opaque error from " + ct.Short}}
+			finish(s2, i+1, append(append([]Value{}, acc...), opaque))
 			finish(st, i+1, append(append([]Value{}, acc...), VNil{}))
 			return
 		}
